@@ -31,8 +31,13 @@ class Gen:
     def __init__(self, seed, size=None):
         self.rng = rng = random.Random(f"c15-mmt/{seed}")
         self.seed = seed
+        # profile 0: everything; 1: model-wide unique, non-reserved names and a time variable called `time` (so that
+        # the operators are reached); 2: additionally no ceil / != and only positive thresholds in conditions
+        self.profile = seed % 3
         self.units = rng.random() < 0.6
-        self.time_name = rng.choice(["time"] * 8 + ["t", "T"])
+        self.time_name = rng.choice(["time"] * 8 + ["t", "T"]) if self.profile == 0 else "time"
+        self.taken = set()
+        self.cstack = []
         self.use_time = rng.random() < 0.35
         self.pace = rng.choice([None, None, "label", "plain"])
         self.depth = rng.choice([1, 2, 2, 3])
@@ -75,15 +80,15 @@ class Gen:
             return None
         s, val = rng.choice(free)
         used.append(s)
-        c = rng.choice([val, val, self.num(unit=False), f"{float(val) * 1.02 + 0.003:.6g}", f"{float(val) * 0.97 - 0.002:.6g}"])
+        c = rng.choice([val, val, self.num(unit=False, positive=self.profile == 2), f"{float(val) * 1.02 + 0.003:.6g}", f"{float(val) * 0.97 - 0.002:.6g}"])
         if self.units and rng.random() < 0.3 and "[" not in c:
             c += " [mV]"
-        r = f"{s} {rng.choice(['<', '>', '<=', '>=', '<', '>', '==', '!='])} {c}"
+        r = f"{s} {rng.choice(['<', '>', '<=', '>=', '<', '>', '==', '!=' if self.profile < 2 else '=='])} {c}"
         k = rng.random()
         if d > 0 and k < 0.5:
             if k < 0.15:
                 return f"not ({r})"
-            r2 = self.cond(d - 1 if k < 0.45 else 0, used)
+            r2 = self.cond(0, used)  # never a and b and c: SymPy flattens it and Myokit's own SymPy reader takes two operands only
             if r2 is None:
                 return r
             if k < 0.3:
@@ -94,12 +99,33 @@ class Gen:
             return f"({r} or {r2}) and {r3}" if r3 else f"not ({r} and {r2})"
         return r
 
-    def pw(self, E):
-        """piecewise with two conditions on different states (or a plain if when there is only one state)"""
-        used = []
-        c1 = self.cond(0, used)
-        c2 = self.cond(0, used)
-        return f"piecewise({c1}, {E()}, {c2}, {E()}, {E()})" if c2 else f"if({c1}, {E()}, {E()})"
+    def branches(self, E, n):
+        """n pairwise different branch expressions (identical branches make a conditional degenerate)"""
+        out = []
+        for i in range(n):
+            e = E()
+            if any(e.replace(" ", "") == o.replace(" ", "") for o in out) or (out and not any(c.isalpha() for c in e + out[0])):
+                e = f"{e} + {i}.5"
+            out.append(e)
+        return out
+
+    def pw(self, E, nested=False):
+        """if / piecewise / nested if; all conditions of one conditional, and of conditionals nested in its branches,
+        are on different states (no unreachable branch); a plain expression when no state is left"""
+        used = list(self.cstack)
+        c1 = self.cond(0 if nested else 1, used)
+        if c1 is None:
+            return E()
+        c2 = self.cond(0, used) if nested or self.rng.random() < 0.5 else None
+        saved, self.cstack = self.cstack, used
+        try:
+            if not c2:
+                a, b = self.branches(E, 2)
+                return f"if({c1}, {a}, {b})"
+            a, b, c = self.branches(E, 3)
+            return f"if({c1}, {a}, if({c2}, {b}, {c}))" if nested else f"piecewise({c1}, {a}, {c2}, {b}, {c})"
+        finally:
+            self.cstack = saved
 
     def expr(self, vs, d):
         rng = self.rng
@@ -118,11 +144,9 @@ class Gen:
             (0.7, lambda: f"sqrt({self.pos(vs, d - 1)})"), (0.5, lambda: f"sin({E()})"), (0.5, lambda: f"cos({E()})"),
             (0.3, lambda: f"tan({self.unit_iv(vs, d - 1)})"), (0.3, lambda: f"asin({self.unit_iv(vs, d - 1)})"),
             (0.3, lambda: f"acos({self.unit_iv(vs, d - 1)})"), (0.4, lambda: f"atan({E()})"), (0.6, lambda: f"abs({E()})"),
-            (0.5, lambda: f"floor({rng.choice(['3.7', '1.3', '0.9'])} * {A()})"), (0.5, lambda: f"ceil({rng.choice(['3.7', '1.3', '0.9'])} * {A()})"),
+            (0.5, lambda: f"floor({rng.choice(['3.7', '1.3', '0.9'])} * {A()})"), (0.5 if self.profile < 2 else 0, lambda: f"ceil({rng.choice(['3.7', '1.3', '0.9'])} * {A()})"),
             (0.4, lambda: f"{A()} // {rng.choice(['0.3', '2', '1.7', '-0.6'])}"), (0.4, lambda: f"{A()} % {rng.choice(['0.3', '2', '1.7', '-0.6'])}"),
-            (1.2, lambda: f"if({self.cond()}, {E()}, {E()})"),
-            (0.7, lambda: self.pw(E)),
-            (0.3, lambda: f"if({self.cond()}, {E()}, if({self.cond()}, {E()}, {E()}))"),
+            (1.9, lambda: self.pw(E)), (0.3, lambda: self.pw(E, nested=True)),
         ]
         r = rng.uniform(0, sum(w for w, _ in opts))
         for w, f in opts:
@@ -157,6 +181,8 @@ class Gen:
                 shared.append(TWINS[n])
 
         def pick(pool_used, extra=()):
+            if self.profile:
+                return self.fresh()
             for _ in range(50):
                 n = rng.choice(shared) if rng.random() < 0.6 else rng.choice(PLAIN + CLASH + list(TWINS.values()))
                 if n not in pool_used and n not in extra and n != self.time_name:
@@ -165,17 +191,18 @@ class Gen:
 
         names = {c: set() for c in allc}
         nS = rng.choice([1, 2, 2, 3, 3, 4])
-        snames = rng.sample(STATES, nS)
+        snames = rng.sample(STATES if not self.profile else STATES[:11], nS)
+        self.taken |= set(snames) | {"time", "pace", "i_stim", "i_st", "amplitude", "stim_amplitude", "pace_in"}
         states = []
         for i, s in enumerate(snames):
             c = comps[i % len(comps)] if i < len(comps) else rng.choice(comps)
-            if rng.random() < 0.25 and i > 0:  # the same state name in two components
+            if rng.random() < 0.25 and i > 0 and not self.profile:  # the same state name in two components
                 s2 = rng.choice(snames[:i])
                 s = s2 if s2 not in names[c] else s
             if s in names[c]:
                 continue
             v = Var(s, c, kind="state")
-            v.init = rng.choice(["0.5", "-1.0", "1.2", "0.01", "-84.5", "2", "0.8", "-0.3", "1e-1", "3.5", "0.25", "0.0017"])
+            v.init = rng.choice(["0.5", "-1.0", "1.2", "0.01", "-84.5", "2", "0.8", "-0.3", "1e-1", "3.5", "0.25", "0.0017"] if self.profile < 2 else ["0.5", "1.2", "0.01", "84.5", "2", "0.8", "1e-1", "3.5"])
             names[c].add(s)
             states.append(v)
         self.state_list = states
@@ -195,7 +222,7 @@ class Gen:
         for c in comps:
             for v in rng.sample(tops, min(len(tops), 2)):
                 if v.comp != c and rng.random() < 0.5:
-                    al = v.name if rng.random() < 0.6 else pick(names[c])
+                    al = v.name if rng.random() < 0.6 and not self.profile else pick(names[c])
                     if al in names[c] or al in [a for (cc, _, _), a in self.alias.items() if cc == c]:
                         continue
                     names[c].add(al)
@@ -259,8 +286,8 @@ class Gen:
         if tree is None:
             tree = root._tree = {root.name}
         for _ in range(nk):
-            n = None
-            for _ in range(50):
+            n = self.fresh() if self.profile else None
+            for _ in range(0 if self.profile else 50):
                 cand = rng.choice(self.shared_pool(v.comp))
                 if cand not in tree and cand not in self.names[v.comp]:
                     n = cand
@@ -302,6 +329,16 @@ class Gen:
             self._mp = True
         if rng.random() < 0.25:
             v.meta.append(f"desc: {rng.choice(['The membrane potential', 'Nernst potential of Na', 'Used instead of if statement.'])}")
+
+    def fresh(self):
+        """a name used nowhere else in the model and not reserved by sympy"""
+        for i in range(200):
+            n = self.rng.choice(PLAIN) + ("" if i < 20 else str(i % 7))
+            if n not in self.taken:
+                self.taken.add(n)
+                return n
+        self.taken.add(f"v{len(self.taken)}")
+        return f"v{len(self.taken) - 1}"
 
     def shared_pool(self, comp):
         if not hasattr(self, "_pool"):
@@ -374,7 +411,10 @@ _OPS = {
     "if": "if(x < 0.51, 1, y)", "if-nested": "if(x < 0.4, 1, if(y > -1.25, 2, 3))", "piecewise": "piecewise(x < 0.4, 1, x < 0.51, y, 3)",
     "eq": "if(x == 0.5, 1, 2)", "ne": "if(x != 0.5, 1, 2)", "le": "if(x <= 0.5, 1, 2)", "ge": "if(y >= -1.2, 1, 2)", "gt": "if(y > -1.2, 1, 2)",
     "and": "if(x >= 0.5 and y < 0, 1, 2)", "or": "if(x > 0.6 or y > 0, 1, 2)", "not": "if(not (x > 0.5), 1, 2)", "not-and": "if(not (x > 0.5 and y < 0), 1, 2)",
-    "and-or": "if((x > 0.6 or y < 0) and x < 0.52, 1, 2)", "number-unit": "1.5 [mV] * x + 1e-3 [1/ms]", "time": "sin(0.1 * time)",
+    "and-or": "if((x > 0.6 or y < 0) and x < 0.52, 1, 2)", "ge-positive": "if(x >= 0.5, 1, 2)", "lt-negative": "if(y < -1.2, 1, x)",
+    "le-negative": "if(y <= -1.2, x, 2)", "ne-negative": "if(y != -1.2, 1, 2)", "not-lt-negative": "if(not (y < -1.2), 1, 2)", "eq-negative": "if(y == -1.2, 1, 2)",
+    "piecewise-negative": "piecewise(x >= 0.4, 1, y < -1, 2, 3)", "abs-exp": "abs(exp(y))", "minus-remainder": "-(y % 0.37)", "minus-minus-remainder": "x - -(y % 0.37)", "times-remainder": "2 * (y % 0.37)", "exp-log-base": "exp(log(x, 2) / 3)",
+    "sqrt-square": "sqrt(y^2)", "log-exp": "log(exp(y))", "number-unit": "1.5 [mV] * x + 1e-3 [1/ms]", "time": "sin(0.1 * time)",
 }
 _NAMED = {
     "nested-1": "[[model]]\nc.x = 0.5\n\n[c]\ntime = 0 bind time\ndot(x) = -x * a\n    a = 2 + x\n",
